@@ -71,7 +71,7 @@ SECOND = """root packet Hdr {
     @lengthOf(Payload) u16 Len,
     match Kind as Payload {
         "AB" : A,
-        ["C", "DE"] : B,
+        ["C", "D,E", "F G"] : B,
     },
     u16 Ck @calculatedFrom("VSUM16") `checksum`,
 }
@@ -93,6 +93,8 @@ root packet Special {
     u8 Kind `100% sure: %d items, {{braces}}, <tag> & "quotes"`, // trailing 50%s
     // own line %v %% %
     string Note `tab\there \\ backslash`,
+    u16 Len @lengthOf(Body) `at most 80% of the MTU, %d bytes 100%`,
+    One Extra `an object, 50% off %s`,
     match Kind as Body {
         // before pair %d
         1 : One,
@@ -100,6 +102,7 @@ root packet Special {
 }
 packet One {
     u16 v `é€ unicode`,
+    u32 Crc @calculatedFrom("VSUM32") `sum %x of 100%`,
 }
 """
 
